@@ -126,3 +126,16 @@ pub uninterp spec fn field_type_of(record: Ty, field: Sym) -> Ty;
 #[verifier::external_body]
 pub fn row_field_type<'a>(typ: &'a Ty, field: &Sym) -> (r: &'a Ty) ensures *r == field_type_of(*typ, *field) { unimplemented!() }
 impl Clone for Ty { #[verifier::external_body] fn clone(&self) -> (r: Ty) ensures r == *self { unimplemented!() } }
+
+// ---- signature_help: which argument of an application the cursor is in
+// R-slice: `<[T]>::first` (std: the first element, None for an empty slice)
+#[verifier::external_body]
+pub fn first_item(v: &Vec<Item>) -> (r: Option<&Item>)
+    ensures v@.len() == 0 ==> r is None, v@.len() > 0 ==> r is Some && *r->Some_0 == v@[0]
+{ unimplemented!() }
+// R-iter: `args.iter().position(|arg| pos <= arg.span.end()).unwrap_or_else(|| args.len())` (std semantics of position)
+#[verifier::external_body]
+pub fn position_or_len(v: &Vec<Item>, pos: BytePos) -> (r: usize)
+    ensures r <= v@.len(), r < v@.len() ==> pos.0 <= v@[r as int].span.end.0,
+            forall|i: int| 0 <= i < r ==> pos.0 > (#[trigger] v@[i]).span.end.0
+{ unimplemented!() }
